@@ -5,31 +5,54 @@ PyFV/Model/Effects.lean (properties C14, C15).
   python3 harness/translate/teff.py lean/PyFV/Gen/Effects.lean
 
 writes  <out>                      `prog_<f>`, `cert_<f>`, `mutable_<f>`, `allowedRet_<f>`, name lists
-        <dir>/EffectsSafe.lean     `theorem safe_<f> … = true := by decide` / `unsafe_<f> … = false`
-        <dir>/effects_status.json  the full status (what the dynamic validation in harness/effects.py reads)
-and prints a one-line JSON summary.  stdlib `ast` only; nothing is imported from the package.
+        <dir>/EffectsSafe.lean     `theorem safe_<f> … = true` or `theorem unsafe_<f> … = false` (`by decide +kernel`)
+        <dir>/effects_status.json  full status: per function regions written / returned / reachable, the offending
+                                   statements (file:line) of every unsafe function, callbacks, conservative fallbacks
+                                   (read by the dynamic validation harness/effects.py)
+and prints a one-line JSON summary.  stdlib `ast` only; nothing is imported from the package; source root
+from $VERIF_REPO (default /repo).
 
-How a function body becomes IR (all flow-insensitive, may-alias):
-  * one IR variable per parameter / Python local / temporary that carries an object reference;
-    scalars and constants carry nothing.  Parameters: a mesh (`m`, `mesh`, `mesh_struct`, annotation
-    is a mesh class, `self` of a mesh class) is `.meshObj` (`self` of `CellProp` classes: `.meshData`),
-    parameter `i` otherwise `.inp i`.  When `x.domain` of an input is used and the function has no
-    mesh parameter, an *implicit* parameter of region `.meshObj` is appended ("the mesh of the inputs").
-  * ALIAS / FRESH / WRITE / CALL rules: see `NP_ALIAS`, `NP_FRESH`, `METH_*` below and the brief in
-    DESIGN §T-eff.  `TrackedArray(x)` is a view.  `deepcopy(x)` is a fresh object that contains only
-    itself (its own copy of the mesh included).
-  * attribute access `y.a` is resolved with the certificate of the function itself: for every region
-    `r` that `y` may denote, `y.domain` denotes the mesh objects in `cont r`, any other attribute the
-    non-mesh members of `cont r` (an `alias` from the canonical variable of that region).  Properties
-    of package classes are calls of their getters / setters (by name, over all classes that define it).
-  * calls of package functions are replaced by the callee's SUMMARY (computed from the callee's own
-    certificate; iterated to a global fixpoint): writes, returned regions, contents of returned /
-    stored fresh objects, references stored into parameters; the callee's `.inp j` stands for
-    everything reachable from argument `j` except the mesh, its fresh sites become new sites of the caller.
-  * calls of a parameter / local (user callbacks `f`, `FL`, `externalsolver`): ASSUMED not to modify
-    their arguments; the result may alias every argument (recorded under "callbacks").
-  * anything else: conservative (write every mentioned variable, result aliases all of them), recorded
-    under "conservative" with file:line.
+Pipeline
+  1. `Package`   parses every module: functions, classes, properties (getter/setter), base classes, import scopes.
+  2. `Builder`   walks one function body ONCE and produces certificate-independent statements (MIR):
+                 alias / fresh / store / write / ret plus the symbolic `attr`, `setattr`, `item`, `call`.
+                 One variable per parameter / local / temporary that carries a reference; scalars carry nothing.
+       ALIAS   rebinding, basic slicing / indexing, `.ravel() .reshape() .T .view()`, `np.asarray/reshape/ravel/squeeze/
+               broadcast_to`, `TrackedArray(x)` (a view), `x if c else y`, tuple / list displays (fresh container
+               + stores), unpacking / iteration (`item`)
+       FRESH   arithmetic / comparison / unary operators on arrays, `np.copy/zeros/ones/array/hstack/tile/...`,
+               `x.copy()`, `csr_array(...)`, fancy indexing on the right, `deepcopy(x)` (a fresh object that contains only
+               itself, its own copy of the mesh included); scalars (`len`, `.item()`, `.tobytes()`, …) are untracked
+       WRITE   `x[...] = e`, `x[...] op= e`, `x op= e`, `np.copyto(x, e)`, `.fill/.sort/.resize`, `out=x`;
+               `o.attr = e` is a store into `o` (which the checker counts as a write of `o`'s regions)
+       CALL    package functions / constructors / methods (by name over all classes that define it) / operators between
+               `CellVariable`s / `FaceVariable`s (the dunder is called): see 4.
+       calls of a parameter / local (user callbacks `f`, `FL`, `externalsolver`): ASSUMED not to modify their arguments;
+               the result may alias every argument (recorded under "callbacks")
+       anything else: conservative (write every mentioned variable, result aliases all of them), recorded under
+               "conservative" with file:line; `global`, `random`, `time`, written mutable defaults: write of `.glob`
+  3. `Analysis`  solves the constraints of one function (least fixpoint), lowering the symbolic statements with the
+                 current certificate.  Internally the contents of a region are kept PER FIELD, so
+       `y.domain`  denotes the mesh objects stored in `y` (for an input: the implicit mesh parameter, see below),
+       `y.attr`    the non-mesh members stored under `attr` (or under "any field": inputs, containers);
+                 the lowering is an `alias` from the CANONICAL variable of each such region (parameter `i` for
+                 `.inp i`, the mesh parameter for `.meshObj`, `load` of it for `.meshData`, a dedicated variable for a
+                 fresh site).  Property getters / setters are expanded in place (two levels, then summaries).
+                 `self` of `__init__` is a new, empty object.  Attributes that only ever hold immutable values
+                 (`_BCs_applied`) carry nothing.
+  4. summaries   (writes, returned regions, stored references per field, sites by kind) are iterated to a global
+                 fixpoint over the call graph.  At a call site the callee's `.inp j` stands for everything reachable from
+                 argument `j` without entering the mesh (only the argument itself for stores that always hit the
+                 parameter object, and for `self` of `__init__`); its fresh sites become sites of the caller.
+  5. emission    aliases merged per target, dead reads removed, stores into objects that do not escape the call are
+                 dropped (all reads of their fields are already resolved: scalar replacement), variables / sites
+                 renumbered, contents recomputed as the least solution of the emitted stores.  A Python replica of
+                 `PyFV.Eff.safe` decides `safe_` vs `unsafe_` and names the offending statements; a certificate that is
+                 not closed aborts the run (never a false `= true`).
+Parameters: a mesh (`m`, `mesh`, `mesh_struct`, annotation is a mesh class, `self` of a mesh class) is `.meshObj`
+(`self` of `CellProp` classes: `.meshData`), parameter `i` otherwise `.inp i` (`self` is 0, `*args` one parameter).
+When the mesh of an input is needed and the function has no mesh parameter, an IMPLICIT trailing parameter of region
+`.meshObj` is appended ("the mesh of the inputs"); likewise `.glob` for module-level state.
 """
 import ast, sys, os, json, itertools
 
